@@ -39,7 +39,7 @@ HARNESSES += [
 JOBS = 12
 JOBS_THOROUGH = 3   # the buffered-mode queries need up to 20 GB each
 MANIFEST = {
-  'level_text': 'Bounded model checking of the real error.c: for every argument string/char/count within the bounds, each lexical diagnostic raised through ERRORreport_with_line and the resolver-path control prints exactly "<file>:<line>: --ERROR PE<nnn>: <message quoting the offending text>", and ERRORset_warning/ERRORset_all_warnings change only the named warning class and can never disable an ERROR-class diagnostic (so -w/-i cannot change a verdict). Kernel level: the composition into a whole check-express run is not encoded.',
+  'level_text': 'Bounded model checking of the real error.c: for every argument string/char/count within the bounds, each lexical diagnostic raised through ERRORreport_with_line and the resolver-path control prints exactly "<file>:<line>: --ERROR PE<nnn>: <message quoting the offending text>", and ERRORset_warning/ERRORset_all_warnings change only the named warning class and can never disable an ERROR-class diagnostic, also when the option names an ERROR-class diagnostic of the real table (so -w/-i cannot change a verdict). Kernel level: the composition into a whole check-express run is not encoded.',
   'level_note': 'Trusted: CBMC 6.11, printf content model (diffed against glibc at setup), harness oracles. Assumes printable argument bytes, numbers 0..255, one diagnostic per call. Outside the claim: semantic diagnostics on parser-built ASTs, line-number accuracy, call sites in the scanner.',
   'technique': 'CBMC bounded model checking (SAT, CaDiCaL) of goto-cc-compiled error.c with symbolic arguments; counterexamples replayed on a gcc/ASan build',
   'design_ref': 'DESIGN.md section 2, C20',
